@@ -42,7 +42,11 @@ struct PInner {
     action: Mutex<Option<Action>>,
     st: Mutex<PState>,
     cv: Condvar,
+    /// T is released when the action has made no storage operation for this long (it is blocked on an
+    /// in-memory lock that T holds); an action that keeps making progress is waited for (up to a hard cap),
+    /// so that a loaded machine does not change which schedule is explored
     park_limit: Duration,
+    sim: SimDirectory,
 }
 
 static ACTIVE: Mutex<Option<Arc<PInner>>> = Mutex::new(None);
@@ -98,7 +102,7 @@ impl Preempt {
     /// arms the gate: the `at`-th storage operation (per-thread index as counted by SimDirectory) of thread
     /// `target` is preceded by `action`
     pub fn arm(sim: &SimDirectory, target: &str, at: usize, action: Action) -> Preempt {
-        let inner = Arc::new(PInner { target: target.to_string(), at, action: Mutex::new(Some(action)), st: Mutex::new(PState::default()), cv: Condvar::new(), park_limit: Duration::from_millis(300) });
+        let inner = Arc::new(PInner { target: target.to_string(), at, action: Mutex::new(Some(action)), st: Mutex::new(PState::default()), cv: Condvar::new(), park_limit: Duration::from_millis(300), sim: sim.clone() });
         *ACTIVE.lock().unwrap() = Some(inner.clone());
         let g = inner.clone();
         let f: GateFn = Arc::new(move |d: &OpDesc| gate(&g, d));
@@ -146,15 +150,21 @@ fn gate(p: &Arc<PInner>, d: &OpDesc) {
         })
         .expect("spawn action thread");
     let t0 = Instant::now();
+    let mut last_progress = Instant::now();
+    let mut last_ops = p.sim.op_count();
     let mut s = p.st.lock().unwrap();
     s.handle = Some(h);
     while !s.done && !s.blocked {
-        let left = p.park_limit.saturating_sub(t0.elapsed());
-        if left.is_zero() {
+        let ops = p.sim.op_count();
+        if ops != last_ops {
+            last_ops = ops;
+            last_progress = Instant::now();
+        }
+        if last_progress.elapsed() >= p.park_limit || t0.elapsed() >= Duration::from_secs(5) {
             s.timed_out = true;
             break;
         }
-        s = p.cv.wait_timeout(s, left).unwrap().0;
+        s = p.cv.wait_timeout(s, Duration::from_millis(20)).unwrap().0;
     }
 }
 
